@@ -4198,6 +4198,10 @@ func vlValueGen(rng *hx.Rng, n int, tier string, w *hx.Writer) {
 	for i := 0; i < n/25; i++ {
 		vlRunHM(vlGenHM(rng.Fork()), w)
 	}
+	// … and as many in which the edits go below the top level of the bound value / through a field of type any
+	for i := 0; i < n/25; i++ {
+		vlRunHM(vlGenHMDeep(rng.Fork()), w)
+	}
 }
 
 func init() {
@@ -4333,6 +4337,7 @@ func vlValueCorpus(w *hx.Writer) {
 	vlValueHSCorpus(w)
 	vlValueDocCorpus(w)
 	vlValueHMCorpus(w)
+	vlValueHMDeepCorpus(w)
 }
 
 // vlValueHSCorpus: a start, app.Set, a later population (kind HS): the later holder shows the CURRENT configuration.
@@ -6093,7 +6098,10 @@ func vlValueDocCorpus(w *hx.Writer) {
 //	       ia iz A = vlMutInit, B = the Go-declared vlAaObs / vlZzObs of the same start, created before / after A (singletons
 //	             are created in the order of their names)
 //	muts   u(<field>:<op>,…)   op = s<hexkey>=<val> set a key | d<hexkey> delete a key | e<index>=<val> overwrite an element |
-//	             a=<val> append;  <field> = index of the eager field (a map[string]any or []any bound by prefix); top level only
+//	             a=<val> append;  <field> = index of the eager field (a map[string]any or []any bound by prefix): its top level;
+//	             <field>:/<step>/…:<op> the same operations further down (seventh round, see the end of the file): step =
+//	             k<hexkey> into a map | i<index> into a list, `/` alone = the field itself; values of type any are type-asserted
+//	       j<n> ja jz   as i<n> ia iz with the Go-declared vlMutInitAny (fields of type any)
 //	eager, late   as in kind HS (in the i modes and for the Go-declared holders the table says what they are)
 //
 // Observation: `<start> <eager field>… <second> <late field>…` — the eager fields BEFORE the edits (in the i modes: as Init
@@ -6107,12 +6115,71 @@ type vlMut struct {
 	key   string
 	idx   int
 	val   *vlCval
+	// seventh round: where inside the bound value the edit happens.  deep = the edit names a way down (possibly of no step
+	// at all): every value on the way — the field itself included, when it is of type any — is type-asserted to
+	// map[string]any / []any as a component would do; steps = k<hexkey> into a map, i<index> into a list.
+	deep  bool
+	steps []vlStep
+}
+
+type vlStep struct {
+	key   string
+	idx   int
+	index bool // a list index (else a map key)
+}
+
+func vlStepsTok(steps []vlStep) string {
+	var p []string
+	for _, st := range steps {
+		if st.index {
+			p = append(p, "i"+strconv.Itoa(st.idx))
+		} else {
+			p = append(p, "k"+hx.Hex(st.key))
+		}
+	}
+	return "/" + strings.Join(p, "/")
+}
+
+func vlParseSteps(s string) ([]vlStep, bool) {
+	if !strings.HasPrefix(s, "/") {
+		return nil, false
+	}
+	if s == "/" {
+		return nil, true
+	}
+	var out []vlStep
+	for _, part := range strings.Split(s[1:], "/") {
+		if len(part) < 2 {
+			return nil, false
+		}
+		switch part[0] {
+		case 'i':
+			n, err := strconv.Atoi(part[1:])
+			if err != nil || n < 0 {
+				return nil, false
+			}
+			out = append(out, vlStep{idx: n, index: true})
+		case 'k':
+			k, err := hx.UnHex(part[1:])
+			if err != nil {
+				return nil, false
+			}
+			out = append(out, vlStep{key: k})
+		default:
+			return nil, false
+		}
+	}
+	return out, true
 }
 
 func vlMutsTok(ms []vlMut) string {
 	var p []string
 	for _, m := range ms {
-		s := strconv.Itoa(m.field) + ":" + string(m.op)
+		s := strconv.Itoa(m.field) + ":"
+		if m.deep {
+			s += vlStepsTok(m.steps) + ":"
+		}
+		s += string(m.op)
 		switch m.op {
 		case 's':
 			s += hx.Hex(m.key) + "=" + m.val.tok()
@@ -6146,7 +6213,21 @@ func vlParseMuts(s string) ([]vlMut, bool) {
 		if err != nil || f < 0 {
 			return nil, false
 		}
-		m := vlMut{field: f, op: rest[i+1]}
+		m := vlMut{field: f}
+		if rest[i+1] == '/' {
+			// `<field>:/<step>/…:<op>` — the edit happens below the top level (or through a field of type any)
+			j := strings.IndexByte(rest[i+1:], ':')
+			if j < 0 || i+1+j+1 >= len(rest) {
+				return nil, false
+			}
+			steps, ok := vlParseSteps(rest[i+1 : i+1+j])
+			if !ok {
+				return nil, false
+			}
+			m.deep, m.steps = true, steps
+			i += j + 1
+		}
+		m.op = rest[i+1]
 		rest = rest[i+2:]
 		head := func(stop string) (string, bool) {
 			j := strings.IndexAny(rest, stop)
@@ -6203,7 +6284,9 @@ func vlParseMuts(s string) ([]vlMut, bool) {
 	}
 }
 
-// vlApplyMut edits the TOP LEVEL of a bound map[string]any / []any in place, as the component that owns the field would.
+// vlApplyMut edits a bound value in place, as the component that owns the field would: the top level of a map[string]any /
+// []any field, or (m.deep) a map / list further down — every value on the way, the field itself included, is type-asserted
+// from any to map[string]any / []any.  An edit whose way does not exist in the value does nothing.
 func vlApplyMut(f reflect.Value, m vlMut) {
 	if !f.IsValid() || !f.CanSet() {
 		return
@@ -6212,22 +6295,56 @@ func vlApplyMut(f reflect.Value, m vlMut) {
 	if m.val != nil {
 		nv = reflect.ValueOf(m.val.native())
 	}
+	cur := f
+	store := func(v reflect.Value) { f.Set(v) } // puts a new value where cur came from
+	if m.deep {
+		unwrap := func() bool {
+			for cur.IsValid() && cur.Kind() == reflect.Interface {
+				if cur.IsNil() {
+					return false
+				}
+				cur = cur.Elem()
+			}
+			return cur.IsValid()
+		}
+		if !unwrap() {
+			return
+		}
+		for _, st := range m.steps {
+			parent := cur
+			switch {
+			case !st.index && parent.Kind() == reflect.Map && parent.Type().Key().Kind() == reflect.String && !parent.IsNil():
+				k := reflect.ValueOf(st.key)
+				cur = parent.MapIndex(k)
+				store = func(v reflect.Value) { parent.SetMapIndex(k, v) }
+			case st.index && parent.Kind() == reflect.Slice && st.idx < parent.Len():
+				slot := parent.Index(st.idx)
+				cur = slot
+				store = func(v reflect.Value) { slot.Set(v) }
+			default:
+				return
+			}
+			if !unwrap() {
+				return
+			}
+		}
+	}
 	switch {
-	case f.Kind() == reflect.Map && !f.IsNil() && f.Type().Key().Kind() == reflect.String && f.Type().Elem().Kind() == reflect.Interface:
+	case cur.Kind() == reflect.Map && !cur.IsNil() && cur.Type().Key().Kind() == reflect.String && cur.Type().Elem().Kind() == reflect.Interface:
 		switch m.op {
 		case 's':
-			f.SetMapIndex(reflect.ValueOf(m.key), nv)
+			cur.SetMapIndex(reflect.ValueOf(m.key), nv)
 		case 'd':
-			f.SetMapIndex(reflect.ValueOf(m.key), reflect.Value{})
+			cur.SetMapIndex(reflect.ValueOf(m.key), reflect.Value{})
 		}
-	case f.Kind() == reflect.Slice && f.Type().Elem().Kind() == reflect.Interface:
+	case cur.Kind() == reflect.Slice && cur.Type().Elem().Kind() == reflect.Interface:
 		switch m.op {
 		case 'e':
-			if m.idx < f.Len() {
-				f.Index(m.idx).Set(nv)
+			if m.idx < cur.Len() {
+				cur.Index(m.idx).Set(nv)
 			}
 		case 'a':
-			f.Set(reflect.Append(f, nv))
+			store(reflect.Append(cur, nv))
 		}
 	}
 }
@@ -6256,6 +6373,41 @@ func (h *vlMutInit) Init() error {
 }
 
 var vlMutInitFields = []vlHField{{"prefix", vlTMA, "sa"}, {"prefix", vlTLA, "sl"}, {"prefix", vlTMA, "sa.sb"}}
+
+// vlMutOwner: a Go-declared component whose Init edits its own fields (modes i…, j…)
+type vlMutOwner interface{ observed() []string }
+
+func (h *vlMutInit) observed() []string { return h.before }
+
+// vlMutInitAny (modes j<n>, ja, jz): the same component with fields of type any — it type-asserts what it was given and
+// edits it, at the top and further down — next to an untyped map and a list of maps.
+type vlMutInitAny struct {
+	E0     any            `prefix:"sa"`
+	E1     any            `prefix:"sm"`
+	E2     map[string]any `prefix:"sa"`
+	E3     []any          `prefix:"sm"`
+	E4     any            `prefix:"sl"`
+	muts   []vlMut
+	before []string
+}
+
+func (h *vlMutInitAny) Init() error {
+	v := reflect.ValueOf(h).Elem()
+	h.before = nil
+	for i := range vlMutInitAnyFields {
+		h.before = append(h.before, vlRender(v.Field(i)))
+	}
+	for _, m := range h.muts {
+		if m.field < len(vlMutInitAnyFields) {
+			vlApplyMut(v.Field(m.field), m)
+		}
+	}
+	return nil
+}
+
+func (h *vlMutInitAny) observed() []string { return h.before }
+
+var vlMutInitAnyFields = []vlHField{{"prefix", vlTA, "sa"}, {"prefix", vlTA, "sm"}, {"prefix", vlTMA, "sa"}, {"prefix", vlTLA, "sm"}, {"prefix", vlTA, "sl"}}
 
 // the observers of the modes ia / iz: the same fields under a name in front of / behind vlMutInit's
 type vlObsFields struct {
@@ -6302,7 +6454,7 @@ type vlHMCase struct {
 
 // vlHMLazy: the index of the LazyInit holder a mode z<n> / i<n> names (-1: none)
 func vlHMLazy(mode string) int {
-	if len(mode) < 2 || (mode[0] != 'z' && mode[0] != 'i') {
+	if len(mode) < 2 || (mode[0] != 'z' && mode[0] != 'i' && mode[0] != 'j') {
 		return -1
 	}
 	n, err := strconv.Atoi(mode[1:])
@@ -6313,7 +6465,7 @@ func vlHMLazy(mode string) int {
 }
 
 func vlHMModeOK(mode string) bool {
-	return mode == "s" || mode == "b" || mode == "ia" || mode == "iz" || vlHMLazy(mode) >= 0
+	return mode == "s" || mode == "b" || mode == "ia" || mode == "iz" || mode == "ja" || mode == "jz" || vlHMLazy(mode) >= 0
 }
 
 // vlHMFixed: the holders a mode fixes (nil = the line says)
@@ -6321,8 +6473,11 @@ func vlHMFixed(mode string) (eager, late []vlHField) {
 	if mode[0] == 'i' {
 		eager = vlMutInitFields
 	}
+	if mode[0] == 'j' {
+		eager = vlMutInitAnyFields
+	}
 	switch {
-	case mode == "ia" || mode == "iz":
+	case mode == "ia" || mode == "iz" || mode == "ja" || mode == "jz":
 		late = vlObsFieldList
 	case vlHMLazy(mode) >= 0:
 		late = vlLazyTableM[vlHMLazy(mode)].fields
@@ -6335,20 +6490,23 @@ func vlRunHMReal(c *vlHMCase) (start string, eagerObs []string, second string, l
 	doc := vlYamlDoc(c.cfg)
 	var eh, lh reflect.Value
 	lateOff := 0
-	var mi *vlMutInit
+	var mi vlMutOwner
 	if c.mode[0] == 'i' {
 		mi = &vlMutInit{muts: c.muts}
+		eh = reflect.ValueOf(mi)
+	} else if c.mode[0] == 'j' {
+		mi = &vlMutInitAny{muts: c.muts}
 		eh = reflect.ValueOf(mi)
 	} else {
 		eh = reflect.New(reflect.StructOf(vlHSStructFields("E", c.eager)))
 	}
 	lateFields := func() reflect.Value { return lh.Elem() }
 	switch {
-	case c.mode == "ia":
+	case c.mode == "ia" || c.mode == "ja":
 		o := &vlAaObs{}
 		lh = reflect.ValueOf(o)
 		lateFields = func() reflect.Value { return lh.Elem().Field(0) }
-	case c.mode == "iz":
+	case c.mode == "iz" || c.mode == "jz":
 		o := &vlZzObs{}
 		lh = reflect.ValueOf(o)
 		lateFields = func() reflect.Value { return lh.Elem().Field(0) }
@@ -6361,7 +6519,7 @@ func vlRunHMReal(c *vlHMCase) (start string, eagerObs []string, second string, l
 	// the harness edits A's fields (modes s b z): what was bound is observed first
 	edit := func() {
 		if mi != nil {
-			eagerObs = mi.before
+			eagerObs = mi.observed()
 			return
 		}
 		for i := range c.eager {
@@ -6391,7 +6549,7 @@ func vlRunHMReal(c *vlHMCase) (start string, eagerObs []string, second string, l
 			defer b.Close()
 			ran2 = true
 			err2 = b.Run(app.LogLevel(syslog.LvPanic), app.SetConfigure(a.Configure), app.SetConfigLoader(), app.SetComponents(lh.Interface()))
-		case c.mode == "b" || c.mode == "ia" || c.mode == "iz":
+		case c.mode == "b" || c.mode == "ia" || c.mode == "iz" || c.mode == "ja" || c.mode == "jz":
 			if err1 = run(eh.Interface(), lh.Interface()); err1 != nil {
 				return
 			}
@@ -6637,4 +6795,238 @@ func vlValueHMCorpus(w *hx.Writer) {
 		vlRunHM(c, w)
 	}
 	vlRunHM(&vlHMCase{mode: "b", cfg: doc, eager: vlMutInitFields, late: vlObsFieldList, labels: []string{"corpus"}}, w) // nothing is edited
+}
+
+// ================================================================ seventh round: edits BELOW the top level (kind HM)
+//
+// Since the repair d95d431 (the binder hands out copies of configuration maps and lists; defect D23) a bound value is the
+// field's own value all the way down: a key set / deleted inside a NESTED map, an element of a nested list (or of a map
+// inside a list) overwritten, an edit through a field of type `any` (type-asserted to map[string]any / []any) — none of them
+// is a change of the configuration.  The edit syntax is extended additively: `<field>:/<step>/…:<op>` names the way down
+// from the field (k<hexkey> into a map, i<index> into a list; `/` alone = no step: the field itself, type-asserted).
+// Documents: vlHMDocDeep — the vocabulary of vlHMDoc (section sa with sub-section sb, list sl) with a third level
+// (sa.sb.sc), a list inside the sub-section (sa.sb.sl) and a list of maps (sm).
+
+func vlHMDocDeep(word func() string, num func() int64, flag bool, n int) *vlCval {
+	c := vlHMDoc(word, num, flag, n)
+	sb := vlMapGet(vlMapGet(c, "sa"), "sb")
+	vlMapPut(sb, "sc", vlCMap(map[string]*vlCval{"kf": vlCStr(word()), "kg": vlCInt(num())}))
+	vlMapPut(sb, "sl", vlCList(vlCStr(word()), vlCStr(word())))
+	sm := vlCList()
+	for i := 0; i < 1+n%2+1; i++ {
+		sm.l = append(sm.l, vlCMap(map[string]*vlCval{"kn": vlCStr(word()), "kp": vlCInt(num())}))
+	}
+	kv := map[string]*vlCval{"sm": sm}
+	for i, k := range c.mk {
+		kv[k] = c.mv[i]
+	}
+	// sorted keys everywhere (tokens are canonical)
+	var sortKeys func(v *vlCval) *vlCval
+	sortKeys = func(v *vlCval) *vlCval {
+		switch v.k {
+		case 'm':
+			m := map[string]*vlCval{}
+			for i, k := range v.mk {
+				m[k] = sortKeys(v.mv[i])
+			}
+			return vlCMap(m)
+		case 'l':
+			out := vlCList()
+			for _, e := range v.l {
+				out.l = append(out.l, sortKeys(e))
+			}
+			return out
+		}
+		return v
+	}
+	return sortKeys(vlCMap(kv))
+}
+
+// vlGenDeepMutsFor: one to three edits below the top level of the eager fields bound by prefix to a map / a list — fields
+// of type map[string]any, []any and any; through a field of type any the top level counts as "below" too.
+func vlGenDeepMutsFor(r *hx.Rng, doc *vlCval, eager []vlHField, word func() string, num func() int64) []vlMut {
+	var cand []int
+	for i, f := range eager {
+		if f.name == "prefix" && (f.t.code() == "MA" || f.t.code() == "LA" || f.t.code() == "A") {
+			cand = append(cand, i)
+		}
+	}
+	if len(cand) == 0 {
+		return nil
+	}
+	scalar := func() *vlCval {
+		if r.Bool() {
+			return vlCStr("edited:" + word())
+		}
+		return vlCInt(num())
+	}
+	containers := func(v *vlCval) (keys []string, idxs []int) {
+		switch v.k {
+		case 'm':
+			for i, k := range v.mk {
+				if v.mv[i].k == 'm' || v.mv[i].k == 'l' {
+					keys = append(keys, k)
+				}
+			}
+		case 'l':
+			for i, e := range v.l {
+				if e.k == 'm' || e.k == 'l' {
+					idxs = append(idxs, i)
+				}
+			}
+		}
+		return
+	}
+	var ms []vlMut
+	for i, n := 0, 1+r.Intn(3); i < n; i++ {
+		fi := cand[r.Intn(len(cand))]
+		val, _ := vlSplitTagArgs(eager[fi].tag)
+		at := vlGetPath(vlLowerKeys(doc), vlPathOf(val))
+		if at == nil || (at.k != 'm' && at.k != 'l') {
+			continue
+		}
+		m := vlMut{field: fi, deep: true}
+		minSteps := 1
+		if eager[fi].t.code() == "A" {
+			minSteps = 0
+		}
+		for {
+			keys, idxs := containers(at)
+			if len(keys)+len(idxs) == 0 || (len(m.steps) >= minSteps && r.P(1, 3)) {
+				break
+			}
+			if len(keys) > 0 {
+				k := keys[r.Intn(len(keys))]
+				m.steps = append(m.steps, vlStep{key: k})
+				at = vlMapGet(at, k)
+			} else {
+				ix := idxs[r.Intn(len(idxs))]
+				m.steps = append(m.steps, vlStep{idx: ix, index: true})
+				at = at.l[ix]
+			}
+		}
+		if len(m.steps) < minSteps {
+			continue
+		}
+		switch {
+		case at.k == 'm' && len(at.mk) > 0:
+			k := at.mk[r.Intn(len(at.mk))]
+			switch r.Intn(4) {
+			case 0:
+				m.op, m.key, m.val = 's', "timeout"+vlGenDigits(r, 1, false), scalar()
+			case 1:
+				m.op, m.key = 'd', k
+			case 2:
+				m.op, m.key, m.val = 's', k, vlCMap(map[string]*vlCval{"edited": vlCBool(true)})
+			default:
+				m.op, m.key, m.val = 's', k, scalar()
+			}
+		case at.k == 'l' && len(at.l) > 0:
+			if r.P(1, 4) {
+				m.op, m.val = 'a', scalar()
+			} else {
+				m.op, m.idx, m.val = 'e', r.Intn(len(at.l)), scalar()
+			}
+		default:
+			continue
+		}
+		ms = append(ms, m)
+	}
+	return ms
+}
+
+var (
+	vlTSecC  = &vlFty{k: 'T', fields: []vlFfield{{"kf", vlTS, ""}, {"kg", vlTI, ""}}}
+	vlTSecN  = &vlFty{k: 'T', fields: []vlFfield{{"kn", vlTS, ""}, {"kp", vlTI, ""}}}
+	vlTSecBC = &vlFty{k: 'T', fields: []vlFfield{{"kd", vlTS, ""}, {"sc", vlTSecC, ""}, {"sl", vlTLS, ""}}}
+)
+
+// vlGenHMDeep: a history of kind HM whose edits go below the top level / through fields of type any.
+func vlGenHMDeep(r *hx.Rng) *vlHMCase {
+	word := func() string { return vlGenPlainWord(r) + ".internal" }
+	num := func() int64 { return int64(1 + r.Intn(9000)) }
+	c := &vlHMCase{cfg: vlHMDocDeep(word, num, r.Bool(), 1+r.Intn(3))}
+	modes := []string{"s", "s", "b", "b", "ia", "iz", "ja", "jz"}
+	for n := range vlLazyTableM {
+		modes = append(modes, "z"+strconv.Itoa(n), "i"+strconv.Itoa(n), "j"+strconv.Itoa(n))
+	}
+	c.mode = modes[r.Intn(len(modes))]
+	fe, fl := vlHMFixed(c.mode)
+	if fe != nil {
+		c.eager = fe
+	} else {
+		pool := []vlHField{{"prefix", vlTMA, "sa"}, {"prefix", vlTA, "sa"}, {"prefix", vlTLA, "sm"}, {"prefix", vlTA, "sm"}, {"prefix", vlTMA, "sa.sb"}, {"prefix", vlTA, "SA.SB"},
+			{"prefix", vlTA, "sl"}, {"prefix", vlTMA, "sa.sb.sc"}, {"prefix", vlTLA, "sa.sb.sl"}, {"prefix", vlTA, "sa.sb.sl"}}
+		for _, i := range r.Perm(len(pool))[:2+r.Intn(2)] {
+			c.eager = append(c.eager, pool[i])
+		}
+	}
+	if fl != nil {
+		c.late = fl
+	} else {
+		pool := []vlHField{{"prefix", vlTMA, "sa"}, {"prefix", vlTMA, "sa.sb"}, {"prefix", vlTMA, "sa.sb.sc"}, {"prefix", vlTSecC, "sa.sb.sc"}, {"prefix", vlTSecBC, "sa.sb"},
+			{"prop", vlTS, "sa.sb.sc.kf"}, {"value", vlTI, "${sa.sb.sc.kg}"}, {"prefix", vlTS, "sa.sb.sc.kf"}, {"prefix", vlTLS, "sa.sb.sl"}, {"prefix", vlTLA, "sa.sb.sl"},
+			{"prefix", vlTLA, "sm"}, {"prefix", &vlFty{k: 'L', elem: vlTSecN}, "sm"}, {"prefix", vlTA, "sm"}, {"prefix", vlTA, "sa"}, {"prefix", vlTSecA, "sa"},
+			{"prop", vlTS, "sa.sb.kd"}, {"value", vlTS, "${sa.ka}/${sa.sb.ke}"}, {"prefix", vlTLS, "sl"}, {"prefix", vlTA, "sl"}, {"prefix", &vlFty{k: 'P', elem: vlTSecC}, "SA.SB.SC"}}
+		for _, i := range r.Perm(len(pool))[:4+r.Intn(3)] {
+			c.late = append(c.late, pool[i])
+		}
+	}
+	c.muts = vlGenDeepMutsFor(r, c.cfg, c.eager, word, num)
+	if r.P(1, 3) { // a top-level edit next to the nested ones
+		c.muts = append(c.muts, vlGenMutsFor(r, c.cfg, c.eager, word, num)...)
+	}
+	c.labels = []string{"gen", "deep"}
+	return c
+}
+
+// vlValueHMDeepCorpus: nested edits and edits through fields of type any, in every mode.
+func vlValueHMDeepCorpus(w *hx.Writer) {
+	word := func() string { return "a.example.org" }
+	doc := vlHMDocDeep(word, func() int64 { return 3 }, false, 2)
+	k := func(keys ...string) []vlStep {
+		var st []vlStep
+		for _, x := range keys {
+			st = append(st, vlStep{key: x})
+		}
+		return st
+	}
+	late := []vlHField{{"prefix", vlTMA, "sa"}, {"prefix", vlTSecBC, "sa.sb"}, {"prop", vlTI, "sa.sb.ke"}, {"value", vlTS, "${sa.sb.sc.kf}"}, {"prefix", vlTSecC, "sa.sb.sc"},
+		{"prefix", vlTLS, "sa.sb.sl"}, {"prefix", &vlFty{k: 'L', elem: vlTSecN}, "sm"}, {"prefix", vlTLA, "sm"}, {"prop", vlTS, "sa.ka"}, {"prefix", vlTA, "sl"}}
+	// the harness edits (modes s, b, z<n>): eager = map, any, list of maps, any
+	eager := []vlHField{{"prefix", vlTMA, "sa"}, {"prefix", vlTA, "sa"}, {"prefix", vlTLA, "sm"}, {"prefix", vlTA, "sl"}}
+	mutsH := []vlMut{
+		{field: 0, deep: true, steps: k("sb"), op: 's', key: "ke", val: vlCInt(99)},
+		{field: 0, deep: true, steps: k("sb", "sc"), op: 'd', key: "kf"},
+		{field: 0, deep: true, steps: k("sb", "sl"), op: 'e', idx: 0, val: vlCStr("primary:a.example.org")},
+		{field: 1, deep: true, op: 's', key: "ka", val: vlCStr("edited")},
+		{field: 2, deep: true, steps: []vlStep{{idx: 0, index: true}}, op: 's', key: "kn", val: vlCStr("edited")},
+		{field: 3, deep: true, op: 'e', idx: 1, val: vlCStr("edited")},
+	}
+	for _, mode := range []string{"s", "b", "z1", "z3", "z4"} {
+		c := &vlHMCase{mode: mode, cfg: doc, muts: mutsH, eager: eager, late: late, labels: []string{"corpus", "deep"}}
+		vlRunHM(c, w)
+		for i := range mutsH { // each edit on its own
+			vlRunHM(&vlHMCase{mode: mode, cfg: doc, muts: mutsH[i : i+1], eager: eager, late: late, labels: []string{"corpus", "deep"}}, w)
+		}
+	}
+	// the component's own Init edits: vlMutInit (typed fields, nested edits) and vlMutInitAny (fields of type any)
+	mutsI := []vlMut{
+		{field: 0, deep: true, steps: k("sb"), op: 's', key: "kd", val: vlCStr("edited")},
+		{field: 0, deep: true, steps: k("sb", "sc"), op: 's', key: "kg", val: vlCInt(77)},
+		{field: 2, deep: true, steps: k("sl"), op: 'e', idx: 1, val: vlCStr("edited")},
+		{field: 2, deep: true, steps: k("sc"), op: 'd', key: "kf"},
+	}
+	mutsJ := []vlMut{
+		{field: 0, deep: true, op: 'd', key: "ka"},
+		{field: 0, deep: true, steps: k("sb"), op: 's', key: "ke", val: vlCInt(99)},
+		{field: 1, deep: true, steps: []vlStep{{idx: 1, index: true}}, op: 's', key: "kp", val: vlCInt(0)},
+		{field: 3, deep: true, steps: []vlStep{{idx: 0, index: true}}, op: 'd', key: "kn"},
+		{field: 4, deep: true, op: 'e', idx: 0, val: vlCStr("edited")},
+		{field: 2, deep: true, steps: k("sb", "sl"), op: 'a', val: vlCStr("more")},
+	}
+	for _, tail := range []string{"a", "z", "0", "1", "3", "4"} {
+		vlRunHM(&vlHMCase{mode: "i" + tail, cfg: doc, muts: mutsI, labels: []string{"corpus", "deep"}}, w)
+		vlRunHM(&vlHMCase{mode: "j" + tail, cfg: doc, muts: mutsJ, labels: []string{"corpus", "deep"}}, w)
+	}
 }
